@@ -254,7 +254,7 @@ class Session:
     def __init__(self, pp, mode, interner=None, gran="region", fine=False):
         self.pp, self.mode = pp, mode
         self.I = interner or Interner()
-        self.gran = gran  # region | event | fine
+        self.gran = gran  # region | lock | event | fine
         self.trace = []
         self.controlled = False
         self.workers = {}
@@ -264,6 +264,8 @@ class Session:
         self.stuck = False
         self.deadlock = False
         self.sched_done = []
+        self.blocked = []  # at a deadlock: [tid, what it waits for, who holds it] per unfinished worker
+        self.enabled_log = []  # enabled set before each scheduling decision (parallel to sched_done)
 
     # ---- install / restore ----------------------------------------------------------------------
     def __enter__(self):
@@ -333,6 +335,8 @@ class Session:
             return self.gran == "fine"
         if self.gran in ("event", "fine"):
             return True
+        if self.gran == "lock" and k in ("acqP", "relP", "acqR", "relR"):
+            return True  # every lock operation, re-entrant ones included
         if k == "acqP":
             return self.P.owner != tid
         if k == "acqR":
@@ -342,6 +346,8 @@ class Session:
     def park(self, ev, tid):
         if not self.controlled or tid < 0:
             return
+        if self.abort:
+            return  # a worker unwinding after the run was torn down (deadlock) must not park again
         if not self.visible(tid, ev):
             return
         w = self.workers[tid]
@@ -356,6 +362,11 @@ class Session:
     def yield_point(self, kind="act"):
         """park the calling worker here (always visible); no-op outside controlled runs"""
         self.park((kind,), self.tid())
+
+    def mark(self, ev):
+        """log a marker pseudo-event (scenario code: begin/end of a nested entry call); markers are stripped
+        before a trace is validated or compared"""
+        self.log(self.tid(), ev)
 
     def wait_for(self, tids):
         """the calling worker waits until the workers `tids` have finished (scheduler-visible: while it waits it
@@ -436,6 +447,7 @@ class Session:
             else:
                 t = en[0]
             self.sched_done.append(t)
+            self.enabled_log.append(list(en))
             self.workers[t].go.release()
             self._wait()
             steps += 1
@@ -446,6 +458,12 @@ class Session:
             if status == "ok":
                 status = "deadlock"
                 self.deadlock = True
+                for t in unfinished:
+                    pend = self.workers[t].pending
+                    k = pend[0] if pend else "?"
+                    holder = {"acqP": self.P.owner, "acqR": self.R.owner}.get(k)
+                    what = {"acqP": "packrat_cache_lock", "acqR": "recursion_lock"}.get(k, k)
+                    self.blocked.append([t, what, holder if holder is not None else list(pend[1:]) if pend else None])
             self.abort = True
             # resume parked workers one at a time; they raise Abort at their park point and unwind
             for t in unfinished:
